@@ -77,9 +77,19 @@ func Load(repo string, overlay map[string]string, patterns []string) (*Program, 
 			}
 			P.redirect[real] = fn
 		}
+		// models that need the target package's types live in its harness files: zzM_<Func> replaces <Func>
+		for _, path := range []string{modPath + "/src", modPath + "/src/algo", modPath + "/src/util"} {
+			if pk := P.pkgs[path]; pk != nil {
+				for name, m := range pk.Members {
+					if fn, ok := m.(*ssa.Function); ok && strings.HasPrefix(name, "zzM_") {
+						P.redirect[path+"."+name[4:]] = fn
+					}
+				}
+			}
+		}
 	}
 	for _, s := range []string{modPath + "/src/algo", modPath + "/src/util", modPath + "/src", modPath + "/src/zzv",
-		"unicode", "unicode/utf8", "strings", "bytes", "strconv", "sort", "math", "math/bits", "unicode/utf16", "io", "errors", "io/fs",
+		"unicode", "unicode/utf8", "strings", "bytes", "strconv", "sort", "math", "math/bits", "unicode/utf16", "io", "errors", "io/fs", "bufio",
 		"internal/stringslite", "slices", "cmp", "crypto/subtle"} {
 		P.initPkgs[s] = true
 	}
@@ -106,7 +116,7 @@ func (P *Program) initOKPkg(path string) bool {
 	switch path {
 	case modPath + "/src/algo", modPath + "/src/util", modPath + "/src", modPath + "/src/zzv", modPath + "/src/tui",
 		"unicode", "unicode/utf8", "strings", "bytes", "errors", "sort", "math", "math/bits", "strconv", "slices", "cmp",
-		"internal/stringslite", "internal/bytealg", "unicode/utf16", "internal/itoa", "io", "io/fs", "internal/oserror":
+		"internal/stringslite", "internal/bytealg", "unicode/utf16", "internal/itoa", "io", "io/fs", "internal/oserror", "bufio":
 		return true
 	}
 	return false
